@@ -116,13 +116,38 @@ def to_frac(x, D, tol, square=False):
     return [f.numerator, f.denominator] if ok else BADQ
 
 
-def raster(j):
+def wrap(data, j):
+    """numpy array -> DataArray; j["chunks"] = [row chunks, column chunks] makes it Dask-backed"""
+    dims = j.get("dims") or ["y", "x"]
+    if j.get("chunks"):
+        import dask.array as da
+        data = da.from_array(data, chunks=(tuple(j["chunks"][0]), tuple(j["chunks"][1])))
+    return xr.DataArray(data, dims=dims)
+
+
+def np_raster(j):
     data = np.array([[val(v) for v in row] for row in j["X"]], dtype=np.float64)
     dt = j.get("dtype", "float64")
     if dt != "float64":
         data = data.astype(dt)
-    dims = j.get("dims") or ["y", "x"]
-    return xr.DataArray(data, dims=dims)
+    return data
+
+
+def raster(j):
+    return wrap(np_raster(j), j)
+
+
+LAZY = [1]
+
+
+def comp(d, j):
+    """the values of a result; for a Dask-backed input the result must be lazy before it is computed"""
+    if j.get("chunks"):
+        if hasattr(d, "dask") and hasattr(d, "compute"):
+            d = d.compute(scheduler="synchronous")
+        else:
+            LAZY[0] = 0
+    return np.asarray(d)
 
 
 def vmax_of(j):
@@ -160,14 +185,15 @@ def job_apply(j):
     if j.get("via") == "focal_stats":
         st = F.focal_stats(r, k, stats_funcs=list(reds))
         names = [str(s) for s in st["stats"].values]
+        stv = comp(st.data, j)
         for i, name in enumerate(names):
-            res[name] = np.asarray(st.data[i])
+            res[name] = np.asarray(stv[i])
         if names != list(reds):
             res = {"__order__": names}
     else:
         for name in reds:
             fn = BUILTIN.get(name) or USER[name]
-            res[name] = np.asarray(F.apply(r, k, fn).data)
+            res[name] = comp(F.apply(r, k, fn).data, j)
     if "__order__" in res:
         return {"kind": "apply", "error": "focal_stats returned stats %s for %s" % (res["__order__"], reds)}
     for name in reds:
@@ -197,7 +223,7 @@ def job_mean(j):
         kw["excludes"] = excl
     if not (j.get("default_passes") and passes == 1):
         kw["passes"] = passes
-    o = np.asarray(F.mean(r, **kw).data)
+    o = comp(F.mean(r, **kw).data, j)
     D = den_of(j) * (2520 ** max(passes, 0)) if passes <= 2 else 10 ** 9
     tol = 64 * 2.3e-16 * vmax_of(j)
     return {"kind": "mean", "X": [[qval(v) for v in row] for row in j["X"]], "passes": passes,
@@ -208,7 +234,7 @@ def job_mean(j):
 def job_conv(j):
     r = raster(j)
     w = np.array([[val(v) for v in row] for row in j["Wt"]], dtype=j.get("kdtype", "float64"))
-    o = np.asarray(C.convolution_2d(r, w).data)
+    o = comp(C.convolution_2d(r, w).data, j)
     wd = 1
     wsum_abs = 0.0
     for row in j["Wt"]:
@@ -230,12 +256,12 @@ def enc_int(a):
 def job_hot(j):
     r = raster(j)
     k = np.array(j["K"], dtype=j.get("kdtype", "float64"))
-    o = F.hotspots(r, k)
-    neg = xr.DataArray(-np.asarray(r.data), dims=r.dims)
-    on = F.hotspots(neg, k)
+    o = comp(F.hotspots(r, k).data, j)
+    neg = wrap(-np_raster(j), j)
+    on = comp(F.hotspots(neg, k).data, j)
     return {"kind": "hot", "X": [[qval(v) for v in row] for row in j["X"]], "K": j["K"],
-            "out": enc_int(o.data), "outneg": enc_int(on.data), "band": j.get("band", 1),
-            "out_dtype": str(o.data.dtype)}
+            "out": enc_int(o), "outneg": enc_int(on), "band": j.get("band", 1),
+            "out_dtype": str(o.dtype)}
 
 
 def job_ladder(j):
@@ -270,10 +296,12 @@ def main():
     jobs = json.load(sys.stdin)["jobs"]
     out = sys.stdout
     for j in jobs:
+        LAZY[0] = 1
         try:
             case = KINDS[j["kind"]](j)
         except Exception as ex:
             case = {"kind": j["kind"], "error": "%s: %s" % (type(ex).__name__, str(ex)[:300])}
+        case["lazy"] = LAZY[0]          # 0: a Dask-backed input gave a result that was not lazy
         case["job"] = j
         out.write(json.dumps(case) + "\n")
     out.flush()
